@@ -55,7 +55,10 @@ def one(seed_dir, root, outdir):
         res["apply"] = "FAILED: " + out[-300:]
     else:
         fired = []
-        for chk in [prop] + EXTRA.get(prop, []):
+        # also every check that reported it when it was archived
+        first = sorted({x.split(":")[0] for x in meta.get("caught_by", []) if ":" in x})
+        chks = [prop] + [x for x in EXTRA.get(prop, []) + first if x != prop]
+        for chk in list(dict.fromkeys(chks)):
             rc, out = sh([os.path.join(VERIF, "bin", "wv"), "check", chk, "--tier", "quick"], cwd=VERIF,
                          env=dict(ENV, WV_REPO=root, WV_HOME=VERIF, WV_VERIF=os.path.join(outdir, name)))
             if rc not in (0, 1):
